@@ -473,8 +473,12 @@ func Universe(n int) []*DAG {
 	leafVariants := []string{"plain", "empty", "foreign", "twomt"}
 	for nl := 1; nl <= 3; nl++ {
 		for _, lv := range leafVariants {
-			if lv == "twomt" && nl < 2 {
+			if (lv == "twomt" || lv == "foreign") && nl < 2 {
 				continue
+			}
+			sp := nl - 1 // index of the special leaf
+			if lv == "foreign" {
+				sp = 1 // so that both foreign-then-normal and normal-then-foreign layer lists exist
 			}
 			for nm := 1; nm <= 3 && nl+nm <= n; nm++ {
 				for ni := 0; ni <= 2 && nl+nm+ni <= n; ni++ {
@@ -487,7 +491,7 @@ func Universe(n int) []*DAG {
 							return
 						}
 						for cfg := 0; cfg < nl; cfg++ {
-							if lv == "foreign" && cfg == nl-1 {
+							if lv == "foreign" && cfg == sp {
 								continue // a foreign layer is never a config
 							}
 							var layerSets [][]int
@@ -540,7 +544,7 @@ func Universe(n int) []*DAG {
 									if i == 0 {
 										mt = MTConfig
 									}
-									if i == nl-1 {
+									if i == sp {
 										switch lv {
 										case "empty":
 											data = ""
